@@ -12,7 +12,7 @@ from . import solver as S
 
 MAXP = 4
 RESERVED = ['index', 'size']  # legal variable names that collide with an attribute / a property of the container
-LINKER_SPANS = ['range', 'list_int', 'list_str', 'list_mixed', 'list_numstr']
+LINKER_SPANS = ['range', 'list_int', 'list_str', 'list_mixed', 'list_numstr', 'list_date']
 
 
 # ----------------------------------------------------------------------------
@@ -186,7 +186,7 @@ def generate_pairs(rng, idx, tier):
 
 
 _LABEL_POINTS = None
-LABEL_SYS_TYPES = ['range', 'range_step', 'list_int', 'list_str', 'list_mixed', 'list_numstr', 'np_int', 'np_str', 'pd_index_int', 'pd_index_str', 'pd_period_y', 'pd_period_q', 'pd_datetime']
+LABEL_SYS_TYPES = ['range', 'range_step', 'list_int', 'list_str', 'list_mixed', 'list_numstr', 'list_date', 'np_int', 'np_str', 'pd_index_int', 'pd_index_str', 'pd_period_y', 'pd_period_q', 'pd_datetime']
 
 
 def label_points():
@@ -439,6 +439,8 @@ def generate(rng, idx, tier, variant):
             r = rng.random()
             if r < 0.45:
                 ops.append({'op': 'set_values', 'obj': p, 'value': {'k': 'matrix', 'shape': 'ok', 'base': g['base'] if variant != 'copies' else 500}, 'pool': (rng.randrange(2) if variant == 'copies' and rng.random() < 0.6 else None)})
+                if ops[-1]['pool'] is None and rng.random() < 0.15:
+                    ops[-1]['value']['as'] = 'np.matrix'
             elif r < 0.65:
                 ops.append({'op': 'set_values', 'obj': p, 'value': {'k': 'matrix', 'shape': rng.choice(['rows+1', 'cols+1', 'flat', 'transposed']), 'base': g['base']}})
             elif r < 0.72:
@@ -447,7 +449,7 @@ def generate(rng, idx, tier, variant):
             else:
                 ops.append({'op': 'set_values', 'obj': p, 'value': {'k': 'scalar', 'e': rng.choice(['float', 'int', 'bool', 'float', 'int', 'bool', 'longstr', 'none']), 'base': g['base']}})
         elif kind == 'add_attribute':
-            nm_ = rng.choice(['note', 'meta', 'tag']) + str(rng.randrange(3)) if rng.random() < 0.7 else rng.choice(['model', 'models', 'sub', 'subs', 'submodel', 's', 'dels'])
+            nm_ = rng.choice(['note', 'meta', 'tag']) + str(rng.randrange(3)) if rng.random() < 0.7 else rng.choice(['model', 'models', 'sub', 'subs', 'submodel', 's', 'dels', 'n_submodels', 'submodels_note'])
             if variant == 'labels':
                 # (label histories: only the attribute that makes a later copy / reindex fail part-way is of interest)
                 ops.append({'op': 'add_attribute', 'obj': p, 'name': nm_, 'v': rng.randrange(100), 'shape': 'uncopyable'})
@@ -528,7 +530,7 @@ def generate(rng, idx, tier, variant):
             fills = {}
             if names and rng.random() < 0.4:
                 for nm, dt in rng.sample(names, min(len(names), rng.randint(1, 2))):
-                    fills[nm] = rng.choice([1, 0, 3.5, True])
+                    fills[nm] = rng.choice([1, 0, 3.5, True, None])  # (None given for a variable: that variable's dtype default, whatever fill_value says)
             if rng.random() < 0.3:
                 which = rng.choice(['status', 'iterations', 'both'])
                 if which in ('status', 'both'):
@@ -1208,6 +1210,13 @@ def execute(schedule, ctx):
                 rows, cols = len(names), n
                 shp = {'ok': (rows, cols), 'rows+1': (rows + 1, cols), 'cols+1': (rows, cols + 1), 'flat': (rows * cols,), 'transposed': (cols, rows)}[vs['shape']]
                 mat = (np.arange(int(np.prod(shp)), dtype=float) + vs['base']).reshape(shp)
+                if vs.get('as') == 'np.matrix' and len(shp) == 2:
+                    import warnings as _w
+
+                    with _w.catch_warnings():
+                        _w.simplefilter('ignore')
+                        mat = np.asmatrix(mat)  # a 2-D array subclass whose rows stay 2-D when indexed
+                    ctx.probe('values-setter:numpy-matrix')
                 if vs.get('content') == 'str':
                     mat = np.array([f'w{int(v_)}' for v_ in mat.ravel()]).reshape(shp)
                 elif vs.get('content') == 'none':
@@ -1241,7 +1250,7 @@ def execute(schedule, ctx):
                     elif e is None:
                         ok_all = True
                         for r_, nm in enumerate(names):
-                            want = mat[r_].astype(party.ref[nm].dtype)
+                            want = np.asarray(mat)[r_].astype(party.ref[nm].dtype)
                             if party.ref[nm].dtype.kind == 'U':
                                 ok_all = None
                                 break
@@ -1763,7 +1772,13 @@ def do_reindex(fsic, parties, party, op, ctx, before_obs, universe_spec, spec):
         new_type = ty
     else:
         items = [uni_labels[j] for j in idxs]
-        if how == 'np' and ty not in ('list_mixed', 'list_numstr', 'pd_period_y', 'pd_period_q', 'pd_datetime'):
+        if how == 'np' and ty == 'list_date':
+            new_span = np.array(items, dtype='datetime64[D]')  # equal labels of another type, hashed differently
+            new_type = 'np-datetime64'
+        elif how == 'np' and ty == 'pd_datetime':
+            new_span = np.array([it.to_datetime64() for it in items])  # equal labels of another type (and hash)
+            new_type = 'np-datetime64'
+        elif how == 'np' and ty not in ('list_mixed', 'list_numstr', 'pd_period_y', 'pd_period_q', 'pd_datetime'):
             new_span = np.array(items)
             new_type = 'np'
         elif how == 'pd' and ty != 'list_mixed':
@@ -1775,7 +1790,7 @@ def do_reindex(fsic, parties, party, op, ctx, before_obs, universe_spec, spec):
             new_span = list(items)
             new_type = 'list'
     new_labels = spans.elements(new_span)
-    if idxs is not None and [str(a) for a in new_labels] != [str(uni_labels[j]) for j in idxs]:
+    if idxs is not None and new_type != 'np-datetime64' and [str(a) for a in new_labels] != [str(uni_labels[j]) for j in idxs]:
         return 'skipped'
     # where does each new period come from? decided by label equality against the old span, nothing else
     def _find(lbl):
@@ -1832,6 +1847,8 @@ def do_reindex(fsic, parties, party, op, ctx, before_obs, universe_spec, spec):
         if is_model and nm in ('status', 'iterations'):
             # the model's bookkeeping defaults ('-' and -1) yield only to a per-variable keyword, not to fill_value
             val = fills.get(nm)
+            if nm in fills and val is None:
+                continue  # an explicit None for a bookkeeping series: dtype default or model default, the text does not say
         if val is None:
             if is_model and nm == 'status':
                 val = '-'
